@@ -433,3 +433,123 @@ func itoa(n int) string {
 	}
 	return string(b[i:])
 }
+
+// ---------------------------------------------------------------------------
+// Models of the typed atomics of sync/atomic: plain fields (one goroutine runs at a time), every operation a
+// scheduling point, so that a check-then-act sequence built from atomic operations can be interleaved.
+
+type AtomicPointer[T any] struct{ p *T }
+
+func (a *AtomicPointer[T]) Load() *T { Yield("atomic.Pointer.Load"); return a.p }
+func (a *AtomicPointer[T]) Store(p *T) {
+	Yield("atomic.Pointer.Store")
+	a.p = p
+}
+func (a *AtomicPointer[T]) Swap(p *T) *T {
+	Yield("atomic.Pointer.Swap")
+	old := a.p
+	a.p = p
+	return old
+}
+func (a *AtomicPointer[T]) CompareAndSwap(old, new *T) bool {
+	Yield("atomic.Pointer.CompareAndSwap")
+	if a.p == old {
+		a.p = new
+		return true
+	}
+	return false
+}
+
+type AtomicValue struct{ v any }
+
+func (a *AtomicValue) Load() any { Yield("atomic.Value.Load"); return a.v }
+func (a *AtomicValue) Store(v any) {
+	Yield("atomic.Value.Store")
+	a.v = v
+}
+func (a *AtomicValue) Swap(v any) any {
+	Yield("atomic.Value.Swap")
+	old := a.v
+	a.v = v
+	return old
+}
+func (a *AtomicValue) CompareAndSwap(old, new any) bool {
+	Yield("atomic.Value.CompareAndSwap")
+	if a.v == old {
+		a.v = new
+		return true
+	}
+	return false
+}
+
+type atomicInt interface {
+	~int32 | ~int64 | ~uint32 | ~uint64 | ~uintptr
+}
+
+// AtomicInt models atomic.Int32, Int64, Uint32, Uint64 and Uintptr.
+type AtomicInt[T atomicInt] struct{ v T }
+
+func (a *AtomicInt[T]) Load() T { Yield("atomic.Int.Load"); return a.v }
+func (a *AtomicInt[T]) Store(v T) {
+	Yield("atomic.Int.Store")
+	a.v = v
+}
+func (a *AtomicInt[T]) Add(d T) T {
+	Yield("atomic.Int.Add")
+	a.v += d
+	return a.v
+}
+func (a *AtomicInt[T]) Swap(v T) T {
+	Yield("atomic.Int.Swap")
+	old := a.v
+	a.v = v
+	return old
+}
+func (a *AtomicInt[T]) CompareAndSwap(old, new T) bool {
+	Yield("atomic.Int.CompareAndSwap")
+	if a.v == old {
+		a.v = new
+		return true
+	}
+	return false
+}
+func (a *AtomicInt[T]) And(m T) T {
+	Yield("atomic.Int.And")
+	old := a.v
+	a.v &= m
+	return old
+}
+func (a *AtomicInt[T]) Or(m T) T {
+	Yield("atomic.Int.Or")
+	old := a.v
+	a.v |= m
+	return old
+}
+
+type AtomicInt32 = AtomicInt[int32]
+type AtomicInt64 = AtomicInt[int64]
+type AtomicUint32 = AtomicInt[uint32]
+type AtomicUint64 = AtomicInt[uint64]
+type AtomicUintptr = AtomicInt[uintptr]
+
+type AtomicBool struct{ v bool }
+
+func (a *AtomicBool) Load() bool { Yield("atomic.Bool.Load"); return a.v }
+func (a *AtomicBool) Store(v bool) {
+	Yield("atomic.Bool.Store")
+	a.v = v
+}
+func (a *AtomicBool) Swap(v bool) bool {
+	Yield("atomic.Bool.Swap")
+	old := a.v
+	a.v = v
+	return old
+}
+func (a *AtomicBool) CompareAndSwap(old, new bool) bool {
+	Yield("atomic.Bool.CompareAndSwap")
+	if a.v == old {
+		a.v = new
+		return true
+	}
+	return false
+}
